@@ -985,3 +985,34 @@ func nonEscaping(a *ssa.Alloc) bool {
 	}
 	return check(a)
 }
+
+// copySlice models copy(dst, src): n = min(len(dst), len(src)) elements of src are written over the first n
+// of dst (reading the old contents, as memmove does); nothing else changes; returns n.
+func (f *frame) copySlice(dst, src SliceV) Val {
+	v := f.v
+	n := v.ctx.Define("copyn", Ite(T(SBool, "(<= %s %s)", dst.L.S, src.L.S), dst.L, src.L))
+	st := f.cur
+	for _, ar := range v.cellArraysOf(dst.Elem) {
+		a := v.arr(st, ar.name, ar.sort)
+		a2 := v.ctx.Fresh(ar.name, ar.sort)
+		v.arrAxioms(a2, ar.sort, st.now)
+		dstElem := func(i string) string {
+			return pathRef(fmt.Sprintf("(at %s %s %s)", dst.B.S, dst.O.S, i), ar.path)
+		}
+		srcElem := func(i string) string {
+			return pathRef(fmt.Sprintf("(at %s %s %s)", src.B.S, src.O.S, i), ar.path)
+		}
+		v.ctx.AssertRaw(fmt.Sprintf("(assert (forall ((i Int)) (! (=> (and (<= 0 i) (< i %s)) (= (select %s %s) (select %s %s))) :pattern ((select %s %s)) :pattern ((select %s %s)))))",
+			n.S, a2.S, dstElem("i"), a.S, srcElem("i"), a2.S, dstElem("i"), a.S, srcElem("i")))
+		base := "r"
+		for k := 0; k < len(ar.path); k++ {
+			base = "(parent " + base + ")"
+		}
+		v.ctx.AssertRaw(fmt.Sprintf("(assert (forall ((r Ref)) (! (=> (not (and (= (elemBase %s) %s) (<= %s (elemIdx %s)) (< (elemIdx %s) (+ %s %s)) (= r %s))) (= (select %s r) (select %s r))) :pattern ((select %s r)))))",
+			base, dst.B.S, dst.O.S, base, base, dst.O.S, n.S,
+			pathRef(fmt.Sprintf("(elem %s (elemIdx %s))", dst.B.S, base), ar.path), a2.S, a.S, a2.S))
+		st = st.with(ar.name, a2)
+	}
+	f.cur = st
+	return n
+}
